@@ -9,7 +9,10 @@
 
       frame (r, AtEnter)     at "enter"  : next = lock chain; contains? push            (file.rs get, first block)
       frame (r, AtPushed)    at "pushed" : next = cache.get_or_compute begin             (SyncCache::get entry match)
-      frame (r, InCall k)    inside compute(), waiting for the nested get above it
+      frame (r, InCall fb k) inside compute() (fb = false) or inside the uncached re-load after a cached
+                             error was found (fb = true), waiting for the nested get above it
+      frame (r, AtHit o)     at "cached" : the cache held Computed o (this call did not compute it); an error
+                             found this way is not served: resolve + from_primitive run again, uncached
       frame (r, AtPublish o) at "publish": next = store Computed, notify_all
       frame (r, AtCached o)  at "cached" : next = match res / downcast (thread-local)
       frame (r, AtLeave o)   at "leave"  : next = Defer: lock chain; pop; assert_eq      (file.rs get, drop guard)
@@ -22,8 +25,8 @@ From PdfV Require Import Base.Prelude Gen.Generated Cache.Model.
 Definition tid := nat.
 
 Inductive pc :=
-| AtEnter | AtPushed | InCall (k : outcome -> comp)
-| AtPublish (o : outcome) | AtCached (o : outcome) | AtLeave (o : outcome).
+| AtEnter | AtPushed | InCall (fb : bool) (k : outcome -> comp)
+| AtPublish (o : outcome) | AtCached (o : outcome) | AtHit (o : outcome) | AtLeave (o : outcome).
 Definition frame := (ref * pc)%type.
 
 Record thread := mkThread {
@@ -76,18 +79,19 @@ Section Conc.
     | _, _ => th
     end.
 
-  (* run the computation p of frame r up to its next yield point *)
-  Definition advance (r : ref) (p : comp) (rest : list frame) : list frame :=
+  (* run the computation p of frame r up to its next yield point; fb: p is the uncached re-load of get's
+     Err arm (its result is returned as it is: next yield point "leave") *)
+  Definition advance (fb : bool) (r : ref) (p : comp) (rest : list frame) : list frame :=
     match p with
-    | Ret o => (r, if cache_on c then AtPublish o else AtCached o) :: rest
-    | Call _ r' k => (r', AtEnter) :: (r, InCall k) :: rest
+    | Ret o => (r, if fb then AtLeave o else if cache_on c then AtPublish o else AtCached o) :: rest
+    | Call _ r' k => (r', AtEnter) :: (r, InCall fb k) :: rest
     end.
 
   (* the innermost get returned o: its caller continues up to its next yield point *)
   Definition return_to (th : thread) (rest : list frame) (o : outcome) : thread :=
     match rest with
     | [] => next_call (mkThread [] (todo th) (results th ++ [o]))
-    | (r, InCall k) :: rest' => mkThread (advance r (k o) rest') (todo th) (results th)
+    | (r, InCall fb k) :: rest' => mkThread (advance fb r (k o) rest') (todo th) (results th)
     | _ :: _ => th      (* unreachable: frames below the top are InCall *)
     end.
 
@@ -125,15 +129,20 @@ Section Conc.
           if cache_on c then
             match cache g r with
             | None => set_thread (set_cache g r InProcess) t            (* Entry::Vacant *)
-                                 (mkThread (advance r (prog r) rest) (todo th) (results th))
-            | Some (Computed o) => set_thread g t (mkThread ((r, AtCached o) :: rest) (todo th) (results th))
+                                 (mkThread (advance false r (prog r) rest) (todo th) (results th))
+            | Some (Computed o) => set_thread g t (mkThread ((r, AtHit o) :: rest) (todo th) (results th))
             | Some InProcess => g                                       (* condvar.wait: not enabled *)
             end
-          else set_thread g t (mkThread (advance r (prog r) rest) (todo th) (results th))
-      | InCall _ => g
+          else set_thread g t (mkThread (advance false r (prog r) rest) (todo th) (results th))
+      | InCall _ _ => g
       | AtPublish o => set_thread (set_cache g r (Computed o)) t
                                   (mkThread ((r, AtCached o) :: rest) (todo th) (results th))
       | AtCached o => set_thread g t (mkThread ((r, AtLeave o) :: rest) (todo th) (results th))
+      | AtHit o =>                                                      (* match res: Ok(any) / Err(_) not computed here *)
+          match o with
+          | Err _ => set_thread g t (mkThread (advance true r (prog r) rest) (todo th) (results th))
+          | _ => set_thread g t (mkThread ((r, AtLeave o) :: rest) (todo th) (results th))
+          end
       | AtLeave o =>                                                    (* Defer: lock, pop, assert_eq *)
           if poisoned g rs then panic_here g t th rest
           else match split_last (chains g rs tk) with
@@ -151,7 +160,7 @@ Section Conc.
     | [] => false
     | (r, AtPushed) :: _ =>
         if cache_on c then match cache g r with Some InProcess => false | _ => true end else true
-    | (_, InCall _) :: _ => false
+    | (_, InCall _ _) :: _ => false
     | _ => true
     end.
 
